@@ -4,6 +4,7 @@ pub mod c01;
 pub mod c02;
 pub mod c03;
 pub mod c04;
+pub mod c05;
 pub mod c06;
 pub mod c07;
 pub mod c08;
@@ -23,6 +24,7 @@ pub const ENTRIES: &[Entry] = &[
     Entry { id: "C02", run: c02::run },
     Entry { id: "C03", run: c03::run },
     Entry { id: "C04", run: c04::run },
+    Entry { id: "C05", run: c05::run },
     Entry { id: "C06", run: c06::run },
     Entry { id: "C07", run: c07::run },
     Entry { id: "C08", run: c08::run },
